@@ -21,8 +21,8 @@ import (
 //   valid     the raw value has the size/shape the RFC defines (otherwise a decoder MUST fail),
 //   canonical the raw value is exactly what a conforming encoder emits for val
 //             (reserved bits zero); a decoder MUST accept it (round trip).
-// For valid-but-not-canonical values (reserved bits set, reserved family
-// codes) a decoder may fail or return val - never anything else.
+// For valid-but-not-canonical values (reserved bits set) a decoder may fail
+// or return val - never anything else.
 
 type refFn func(v []byte, tx [12]byte) (val string, valid, canonical bool)
 
@@ -65,7 +65,9 @@ func refRequestedFamily(v []byte, _ [12]byte) (string, bool, bool) { // RFC 6156
 		return "", false, false
 	}
 
-	return strconv.Itoa(int(v[0])), true, (v[0] == 1 || v[0] == 2) && v[1] == 0 && v[2] == 0 && v[3] == 0
+	// the value domain is {0x01 IPv4, 0x02 IPv6}; every other code is reserved and no value of the
+	// attribute (0x00 in particular coincides with "no family requested"): such bytes must be refused
+	return strconv.Itoa(int(v[0])), v[0] == 1 || v[0] == 2, (v[0] == 1 || v[0] == 2) && v[1] == 0 && v[2] == 0 && v[3] == 0
 }
 
 func refEvenPort(v []byte, _ [12]byte) (string, bool, bool) { // RFC 5766 §14.6: R is the most significant bit
@@ -322,6 +324,10 @@ func judge(got string, err error, val string, valid, canonical bool) (kind, deta
 // malformedKind names why the reference rejects a raw XOR address / sized value.
 func malformedKind(s *attrSpec, v []byte) string {
 	if !s.xor {
+		if s.name == "requested-address-family" && len(v) == 4 {
+			return "reserved-family-code"
+		}
+
 		return "wrong-size"
 	}
 	switch {
@@ -543,7 +549,7 @@ func (a *attrChecker) roundTrip(s *attrSpec, tx [12]byte, want string, inDomain 
 		return
 	}
 	val, valid, _ := s.ref(pm.Attrs[0].Value, tx)
-	if !valid || val != want {
+	if (inDomain && !valid) || val != want { // an encoder that does not refuse a value outside the domain still writes the bytes that denote it
 		violate("encoded-bytes-denote-other-value",
 			fmt.Sprintf("attribute value %s denotes %q (valid=%v) per the RFC layout", hexs(pm.Attrs[0].Value), val, valid))
 	}
